@@ -193,16 +193,23 @@ func main() {
 			u.obs["files"] = strings.Join(names, ",")
 			u.obs["fmt"] = fmtok
 			// compile-time interface assertion, one per generated file
-			var zz strings.Builder
-			zz.WriteString("package " + u.pkg + "_ins\n\nimport \"github.com/koykov/inspector\"\n\n")
-			for _, n := range names {
-				b := out[n]
-				if !strings.HasSuffix(n, ".go") {
-					continue
+			mkzz := func(out map[string][]byte) string {
+				var zz strings.Builder
+				zz.WriteString("package " + u.pkg + "_ins\n\nimport \"github.com/koykov/inspector\"\n\n")
+				var ns []string
+				for n := range out {
+					ns = append(ns, n)
 				}
-				if m := regexp.MustCompile(`(?m)^type (\w+Inspector) struct`).FindSubmatch(b); m != nil {
-					zz.WriteString("var _ inspector.Inspector = " + string(m[1]) + "{}\n")
+				sort.Strings(ns)
+				for _, n := range ns {
+					if !strings.HasSuffix(n, ".go") || n == "zz_check.go" {
+						continue
+					}
+					if m := regexp.MustCompile(`(?m)^type (\w+Inspector) struct`).FindSubmatch(out[n]); m != nil {
+						zz.WriteString("var _ inspector.Inspector = " + string(m[1]) + "{}\n")
+					}
 				}
+				return zz.String()
 			}
 			if emitMode {
 				return
@@ -224,9 +231,14 @@ func main() {
 			}
 			u.obs["det"], u.obs["tgt"] = det, strings.TrimPrefix(tgt, "ok+")
 			for _, d := range []string{"_ins2", "_insd", "_insp"} {
+				// what another target emitted differently is kept and compiled as well (C14 is about every target's output)
+				if (d == "_insd" && strings.Contains(tgt, "dir-differs") || d == "_insp" && strings.Contains(tgt, "pkg-differs")) && len(readDir(filepath.Join(base, u.pkg+d))) > 0 {
+					must(os.WriteFile(filepath.Join(base, u.pkg+d, "zz_check.go"), []byte(mkzz(readDir(filepath.Join(base, u.pkg+d)))), 0644))
+					continue
+				}
 				_ = os.RemoveAll(filepath.Join(base, u.pkg+d))
 			}
-			must(os.WriteFile(filepath.Join(base, u.pkg+"_ins", "zz_check.go"), []byte(zz.String()), 0644))
+			must(os.WriteFile(filepath.Join(base, u.pkg+"_ins", "zz_check.go"), []byte(mkzz(out)), 0644))
 			// XML dumps
 			if err := writeXML(fconf("-"), "xmlast_"+u.pkg); err == nil {
 				u.obs["xmlast"] = xmlHashes(filepath.Join(base, "xmlast_"+u.pkg))
@@ -265,7 +277,14 @@ func main() {
 	failed := map[string]bool{}
 	for _, l := range strings.Split(string(outb), "\n") {
 		if strings.HasPrefix(l, "# gen/") {
-			failed[strings.TrimSuffix(strings.Fields(l)[1][len("gen/"):], "_ins")] = true
+			name := strings.Fields(l)[1][len("gen/"):]
+			for _, suf := range []string{"_insd", "_insp", "_ins"} {
+				if strings.HasSuffix(name, suf) {
+					name = strings.TrimSuffix(name, suf)
+					break
+				}
+			}
+			failed[name] = true
 		}
 	}
 	if os.Getenv("GENRUN_BUILDLOG") != "" {
